@@ -1,7 +1,6 @@
 package message
 
 import (
-	"bytes"
 	"context"
 	"errors"
 
@@ -107,11 +106,24 @@ func (m *c07Ref) newRecord(p string) c07Rec {
 		id:      m.nextID,
 		uid:     c07Senders[zzsym.Choice(p+".uid", 2)],
 		cno:     c07ClientNos[zzsym.Choice(p+".cno", 2)],
-		payload: zzsym.U8(p + ".payload"),
+		payload: c07Payload(p+".payload", m.nextID),
 		ts:      m.nextTS,
 	}
 	m.ids = append(m.ids, r.id)
 	return r
+}
+
+// c07SymbolicPayload selects fully symbolic payload bytes (Harness_C07_StoreSymbolicPayload). Every
+// read of a row with a symbolic payload costs the solver ~20 branch queries (varint bytes of the FNV
+// payload hash, hash re-validation), so the history entries give every record its own concrete
+// payload byte (derived from the message id: no two rows of a history carry the same byte).
+var c07SymbolicPayload bool
+
+func c07Payload(name string, id uint64) byte {
+	if c07SymbolicPayload {
+		return zzsym.U8(name)
+	}
+	return byte(id)
 }
 
 func c07ToRecord(r c07Rec) Record {
@@ -124,41 +136,51 @@ func c07SameMessage(msg Message, r c07Rec) bool {
 		msg.PayloadHash == hashPayload([]byte{r.payload}) && msg.ServerTimestampMS == r.ts
 }
 
-// c07CheckAgainst compares everything observable of the store with the reference log.
+// c07CheckAgainst compares everything observable of the store with the reference log. The
+// comparisons of one category are accumulated into one obligation (one solver query per category
+// and step instead of one per field).
 func c07CheckAgainst(s *c07Store, m *c07Ref) {
 	ctx := context.Background()
 	leo, err := s.log.LEO(ctx)
 	zzsym.Assert(err == nil && leo == m.leo, "store: LEO differs from the reference log")
 
 	// point reads over the whole sequence space 1..LEO+1
+	pointOK := true
 	for seq := uint64(1); seq <= m.leo+1; seq++ {
 		msg, ok, gerr := s.log.GetBySeq(ctx, seq)
 		want, present := m.rowAt(seq)
-		zzsym.Assert(gerr == nil, "store: GetBySeq fails")
-		if present {
-			zzsym.Assert(ok && c07SameMessage(msg, want), "store: GetBySeq returns a different row than the reference log")
-		} else {
-			zzsym.Assert(!ok, "store: GetBySeq returns a removed or never written row")
+		if gerr != nil || ok != present {
+			pointOK = false
+		} else if present && !c07SameMessage(msg, want) {
+			pointOK = false
 		}
 	}
+	zzsym.Assert(pointOK, "store: GetBySeq disagrees with the reference log (different row, removed row returned, or retained row missing)")
 
 	// forward scan from the start: exactly the retained contiguous sequence
 	msgs, rerr := s.log.Read(ctx, 0, ReadOptions{})
-	zzsym.Assert(rerr == nil, "store: Read fails")
-	zzsym.Assert(len(msgs) == len(m.rows), "store: Read returns a different number of rows than the reference log retains")
+	zzsym.Assert(rerr == nil && len(msgs) == len(m.rows), "store: Read fails or returns a different number of rows than the reference log retains")
+	scanOK := true
 	for i := 0; i < len(msgs) && i < len(m.rows); i++ {
-		zzsym.Assert(c07SameMessage(msgs[i], m.rows[i]), "store: Read returns a row that differs from the reference log")
-		zzsym.Assert(msgs[i].MessageSeq == m.firstRetained()+uint64(i), "store: Read is not contiguous from the first retained sequence")
+		if !c07SameMessage(msgs[i], m.rows[i]) || msgs[i].MessageSeq != m.firstRetained()+uint64(i) {
+			scanOK = false
+		}
 	}
 	if len(m.rows) > 1 {
 		// a scan from the middle and a limited scan see the same rows
 		tail, terr := s.log.Read(ctx, m.rows[1].seq, ReadOptions{Limit: 1})
-		zzsym.Assert(terr == nil && len(tail) == 1 && c07SameMessage(tail[0], m.rows[1]), "store: limited Read from the second retained row differs")
+		if terr != nil || len(tail) != 1 || !c07SameMessage(tail[0], m.rows[1]) {
+			scanOK = false
+		}
 		rev, verr := s.log.ReadReverse(ctx, 0, ReadOptions{Limit: 1})
-		zzsym.Assert(verr == nil && len(rev) == 1 && c07SameMessage(rev[0], m.rows[len(m.rows)-1]), "store: ReadReverse does not start at the last retained row")
+		if verr != nil || len(rev) != 1 || !c07SameMessage(rev[0], m.rows[len(m.rows)-1]) {
+			scanOK = false
+		}
 	}
+	zzsym.Assert(scanOK, "store: Read / ReadReverse is not the contiguous retained sequence with identical fields")
 
 	// message-id index: every id ever appended
+	idOK := true
 	for _, id := range m.ids {
 		var holder c07Rec
 		held := false
@@ -168,30 +190,32 @@ func c07CheckAgainst(s *c07Store, m *c07Ref) {
 			}
 		}
 		msg, ok, ierr := s.log.GetByMessageID(ctx, id)
-		zzsym.Assert(ierr == nil, "store: GetByMessageID fails (stale index)")
-		if held {
-			zzsym.Assert(ok && c07SameMessage(msg, holder), "store: GetByMessageID disagrees with the stored row")
-		} else {
-			zzsym.Assert(!ok, "store: GetByMessageID returns a removed or rejected row")
+		if ierr != nil || ok != held {
+			idOK = false
+		} else if held && !c07SameMessage(msg, holder) {
+			idOK = false
 		}
 	}
+	zzsym.Assert(idOK, "store: GetByMessageID disagrees with the stored rows (stale index, removed or rejected row returned, or stored row not found)")
 
 	// (sender, client message number) index: all four pairs
+	pairOK := true
 	for _, uid := range c07Senders {
 		for _, cno := range c07ClientNos {
 			hit, ok, lerr := s.log.LookupIdempotency(ctx, IdempotencyKey{FromUID: uid, ClientMsgNo: cno})
 			holder, held := m.pairHolder(uid, cno)
-			zzsym.Assert(lerr == nil, "store: LookupIdempotency fails (stale index)")
-			if held {
-				zzsym.Assert(ok && hit.MessageSeq == holder.seq && hit.MessageID == holder.id && hit.Offset == holder.seq-1 &&
-					hit.PayloadHash == hashPayload([]byte{holder.payload}), "store: LookupIdempotency disagrees with the stored row")
-			} else {
-				zzsym.Assert(!ok, "store: LookupIdempotency returns a removed row")
+			if lerr != nil || ok != held {
+				pairOK = false
+			} else if held && !(hit.MessageSeq == holder.seq && hit.MessageID == holder.id && hit.Offset == holder.seq-1 &&
+				hit.PayloadHash == hashPayload([]byte{holder.payload})) {
+				pairOK = false
 			}
 		}
 	}
+	zzsym.Assert(pairOK, "store: LookupIdempotency disagrees with the stored rows (stale index, removed row returned, or stored row not found)")
 
 	// sender sequence index: last message of each sender among the retained rows
+	senderOK := true
 	for _, uid := range c07Senders {
 		var last uint64
 		for _, r := range m.rows {
@@ -200,9 +224,11 @@ func c07CheckAgainst(s *c07Store, m *c07Ref) {
 			}
 		}
 		got, ok, serr := s.log.GetLastSenderMessageSeq(ctx, uid, ^uint64(0))
-		zzsym.Assert(serr == nil, "store: GetLastSenderMessageSeq fails")
-		zzsym.Assert(ok == (last != 0) && (!ok || got == last), "store: GetLastSenderMessageSeq disagrees with the stored rows")
+		if serr != nil || ok != (last != 0) || (ok && got != last) {
+			senderOK = false
+		}
 	}
+	zzsym.Assert(senderOK, "store: GetLastSenderMessageSeq disagrees with the stored rows")
 
 	// system rows
 	cp, okCP, cerr := s.log.LoadCheckpoint(ctx)
@@ -219,9 +245,8 @@ func c07CheckAgainst(s *c07Store, m *c07Ref) {
 	zzsym.Assert(oerr == nil, "store: bystander channel cannot be acquired")
 	omsg, ook, ogerr := other.GetBySeq(ctx, 1)
 	oleo, olerr := other.LEO(ctx)
-	zzsym.Assert(ogerr == nil && ook && omsg.MessageID == c07OtherFirst && omsg.ChannelID == c07OtherID.ID && len(omsg.Payload) == 1 && omsg.Payload[0] == 'o',
-		"store: the row of another channel sharing the engine changed")
-	zzsym.Assert(olerr == nil && oleo == 1, "store: LEO of another channel sharing the engine changed")
+	zzsym.Assert(ogerr == nil && ook && omsg.MessageID == c07OtherFirst && omsg.ChannelID == c07OtherID.ID && len(omsg.Payload) == 1 && omsg.Payload[0] == 'o' &&
+		olerr == nil && oleo == 1, "store: the row or the log end of another channel sharing the engine changed")
 	zzsym.Assert(other.Close() == nil, "store: bystander lease close failed")
 }
 
@@ -361,7 +386,7 @@ func c07Trim(s *c07Store, m *c07Ref, step string) {
 // c07StoreCheckpoint: monotonic checkpoint write with HW anywhere in oldHW .. LEO.
 func c07StoreCheckpoint(s *c07Store, m *c07Ref, step string) {
 	hw := m.cp.HW + uint64(zzsym.Choice(step+".hw", int(m.leo-m.cp.HW)+1))
-	cp := Checkpoint{Epoch: m.cp.Epoch + uint64(zzsym.Choice(step+".epoch", 2)), LogStartOffset: m.cp.LogStartOffset, HW: hw}
+	cp := Checkpoint{Epoch: m.cp.Epoch + 1, LogStartOffset: m.cp.LogStartOffset, HW: hw}
 	err := s.log.StoreCheckpointMonotonic(context.Background(), cp, hw, m.leo)
 	zzsym.Reach("store-checkpoint")
 	zzsym.Assert(err == nil, "store: a monotonic checkpoint within the log is refused")
@@ -434,14 +459,14 @@ func Harness_C07_StoreHistoryFromEmpty() {
 	c07Finish(s, m)
 }
 
-// c07Seed: three appended rows (pairs a/x, b/x, a/y, symbolic payload bytes), checkpoint HW=2:
+// c07Seed: three appended rows (pairs a/x, b/x, a/y), checkpoint HW=2:
 // rows 1..2 committed, row 3 an uncommitted suffix. Executed through the real code.
 func c07Seed(s *c07Store, m *c07Ref) {
 	pairs := [3][2]int{{0, 0}, {1, 0}, {0, 1}}
 	for i, p := range pairs {
 		m.nextID++
 		m.nextTS++
-		r := c07Rec{id: m.nextID, uid: c07Senders[p[0]], cno: c07ClientNos[p[1]], payload: zzsym.U8("seed.payload"), ts: m.nextTS}
+		r := c07Rec{id: m.nextID, uid: c07Senders[p[0]], cno: c07ClientNos[p[1]], payload: c07Payload("seed.payload", m.nextID), ts: m.nextTS}
 		m.ids = append(m.ids, r.id)
 		res, err := s.log.Append(context.Background(), []Record{c07ToRecord(r)}, AppendOptions{})
 		zzsym.Assert(err == nil && res.BaseSeq == uint64(i+1), "store: seed append failed")
@@ -485,4 +510,47 @@ func Harness_C07_StoreTrimTruncateReopen() {
 	c07Finish(s, m)
 }
 
-var _ = bytes.Equal
+// Harness_C07_StoreSymbolicPayload: byte identity for ALL payload byte values on one fixed history
+// that exercises every operation: append 2, follower apply 1 (+checkpoint HW=3), append 1, trim
+// through 1, truncate from 4, reopen; the reference check runs after every step.
+func Harness_C07_StoreSymbolicPayload() {
+	c07SymbolicPayload = true
+	defer func() { c07SymbolicPayload = false }()
+	s, m := c07FreshStore()
+	mk := func(uid, cno int) c07Rec {
+		m.nextID++
+		m.nextTS++
+		r := c07Rec{id: m.nextID, uid: c07Senders[uid], cno: c07ClientNos[cno], payload: zzsym.U8("payload"), ts: m.nextTS}
+		m.ids = append(m.ids, r.id)
+		return r
+	}
+	ctx := context.Background()
+	a, b := mk(0, 0), mk(1, 0)
+	res, err := s.log.Append(ctx, []Record{c07ToRecord(a), c07ToRecord(b)}, AppendOptions{Mode: AppendServerAllocatedMessageID})
+	zzsym.Assert(err == nil && res.BaseSeq == 1 && res.LastSeq == 2, "store: symbolic-payload append failed")
+	a.seq, b.seq = 1, 2
+	m.rows, m.leo = append(m.rows, a, b), 2
+	c07CheckAgainst(s, m)
+	c := mk(0, 1)
+	cp := Checkpoint{Epoch: 1, HW: 3}
+	res, err = s.log.ApplyFetch(ctx, ApplyFetchRequest{BaseSeq: 3, Records: []Record{c07ToRecord(c)}, Checkpoint: &cp})
+	zzsym.Assert(err == nil && res.BaseSeq == 3, "store: symbolic-payload follower apply failed")
+	c.seq = 3
+	m.rows, m.leo, m.hasCP, m.cp = append(m.rows, c), 3, true, cp
+	c07CheckAgainst(s, m)
+	d := mk(1, 1)
+	res, err = s.log.Append(ctx, []Record{c07ToRecord(d)}, AppendOptions{})
+	zzsym.Assert(err == nil && res.BaseSeq == 4, "store: symbolic-payload second append failed")
+	d.seq = 4
+	m.rows, m.leo = append(m.rows, d), 4
+	c07CheckAgainst(s, m)
+	_, err = s.log.TrimPrefixThrough(ctx, 1)
+	zzsym.Assert(err == nil, "store: symbolic-payload trim failed")
+	m.rows, m.trimmed, m.physical = m.rows[1:], true, 1
+	c07CheckAgainst(s, m)
+	zzsym.Assert(s.log.TruncateFrom(ctx, 4) == nil, "store: symbolic-payload truncate failed")
+	m.rows, m.leo = m.rows[:2], 3
+	c07CheckAgainst(s, m)
+	zzsym.Reach("store-symbolic-payload")
+	c07Finish(s, m)
+}
